@@ -30,7 +30,7 @@ func registerC17() {
 		ID:    "C17",
 		Level: "exploration",
 		Rule: "all 2^32 semicircle values for Latitude and Longitude (constructors, Invalid, Semicircles, Degrees, NewXDegrees round trip) and all 2^32 second counts " +
-			"(decode/encode bijection, UTC, whole seconds, monotone, IsBaseTime), in 4096 chunks of 2^20 values; the printed form is checked on a stride of 4099 plus all " +
+			"(decode/encode bijection, UTC, whole seconds, monotone, IsBaseTime - also false for instants a fraction of a second beside the epoch and whole 2^32 s periods away from it), in 4096 chunks of 2^20 values; the printed form is checked on a stride of 4099 plus all " +
 			"boundary values in the quick tier and on every value in the thorough tier; family spread: 128 of the chunks once more, also in a binary built with GOARCH=386 (32-bit int); family decoded: coordinates that come out of Decode (record.position_lat / position_long written as sint32 in both byte orders: all boundary values and a stride over the range, 4000 per case) obey the same rules and equal what the constructor gives for the same semicircles; family concurrent-print: 8 goroutines print and parse 40000 coordinates each at the same time; plus the same rules (coordinates on a stride of 4099 and the boundary values, times on a stride of 8209) in a program built for GOOS=js GOARCH=wasm and run by node when the host has one - a platform that converts out-of-range floats and shifts differently from amd64 and 386; every value is a distinct case, non-trivial because each exercises the oracle",
 		Assume: []string{
 			"'outside +-90 degrees' is read as the library's documented semicircle range [-2^30, 2^30-1]; +2^30 (exactly +90) is invalid in the code and in its own test table",
@@ -455,6 +455,36 @@ func c17Time(c *lib.Ctx, idx uint64) {
 			}
 		}
 		c.Count("is_base_time_probes_in_other_locations", int64(ib))
+		// round 13: "true only at zero" from the side of the time values an application holds:
+		// an instant that is not the FIT epoch - a fraction of a second beside it, or a whole
+		// number of 2^32-second periods away from it (where a 32-bit second count would read
+		// zero again) - is not the base time, in whatever location it is expressed.
+		off0 := 0
+		for _, d := range []time.Duration{time.Nanosecond, time.Microsecond, time.Millisecond, 250 * time.Millisecond, 500 * time.Millisecond, 999999999 * time.Nanosecond, time.Second, -time.Second} {
+			for _, sign := range []time.Duration{1, -1} {
+				for _, z := range []*time.Location{time.UTC, time.Local, time.FixedZone("FITLOCAL", 7200), time.FixedZone("", -19800)} {
+					off0++
+					if t := fitEpoch.Add(sign * d).In(z); fit.IsBaseTime(t) {
+						report("IsBaseTime(%v) = true: the instant lies %v from the FIT epoch", t.Format(time.RFC3339Nano), sign*d)
+					}
+				}
+			}
+		}
+		for _, k := range []int64{1, 2, 3, -1, -2} {
+			for _, z := range []*time.Location{time.UTC, time.Local, time.FixedZone("FITLOCAL", -3600)} {
+				off0++
+				if t := time.Unix(epochUnix+k<<32, 0).In(z); fit.IsBaseTime(t) {
+					report("IsBaseTime(%v) = true: the instant lies %d x 2^32 s from the FIT epoch", t.Format(time.RFC3339), k)
+				}
+			}
+		}
+		for _, z := range []*time.Location{time.Local, time.FixedZone("FITLOCAL", 7200), time.FixedZone("x", -43200)} {
+			off0++
+			if !fit.IsBaseTime(fitEpoch.In(z)) {
+				report("IsBaseTime(the FIT epoch expressed in %v) = false", z)
+			}
+		}
+		c.Count("is_base_time_probes_beside_the_epoch_and_periods_away", int64(off0))
 		c.Sample("time", 1, map[string]interface{}{"seconds": 1000000000, "decoded": fit.VerifDecodeDateTime(1000000000).Format(time.RFC3339)})
 	}
 	c.EvalN(1 << 20)
